@@ -294,19 +294,24 @@ def case_strategy(isolated=False):
                 else:
                     seq.append([kind])
             seqs.append(seq)
-        # merge order
+        # merge order: a random interleaving, or one lifetime after the other (an instance is stopped before the next one
+        # is started - only with instances that are created on their first request)
+        sequential = start == "single" and draw(st.integers(0, 3)) == 0
+        if sequential:
+            for i in range(k - 1):
+                seqs[i] = [r for r in seqs[i] if r[0] != "stop"] + [["stop"]]
         pos = [0] * k
         events = []
         remaining = sum(len(s) for s in seqs)
         while remaining:
             cand = [i for i in range(k) if pos[i] < len(seqs[i])]
-            i = draw(st.sampled_from(cand))
+            i = cand[0] if sequential else draw(st.sampled_from(cand))
             events.append(["req", i, seqs[i][pos[i]]])
             pos[i] += 1
             remaining -= 1
             if draw(st.integers(0, 5)) == 0:
                 events.append(["advance", draw(st.sampled_from([1000, 10 ** 6, 40 * 10 ** 6, 400 * 10 ** 6, 4000 * 10 ** 6]))])
-        return {"style": style, "start": start, "isolated": isolated, "timeouts": timeouts, "events": events}
+        return {"style": style, "start": start, "isolated": isolated, "sequential": sequential, "timeouts": timeouts, "events": events}
     return build()
 
 
@@ -315,7 +320,7 @@ def _body(ctx):
         info, vs = check_case(case)
         kinds = sorted(set("req:" + e[2][0] for e in case["events"] if e[0] == "req"))
         ctx.case(case, nontrivial=info["nontrivial"], labels=["style:" + case["style"], "k:%d" % len(case["timeouts"]), "start:" + case.get("start", "single"),
-                                                              "isolated" if case.get("isolated") else "in-process"] + kinds +
+                                                              "isolated" if case.get("isolated") else "in-process"] + (["one-lifetime-after-the-other"] if case.get("sequential") else []) + kinds +
                  (["has-advance"] if any(e[0] == "advance" for e in case["events"]) else []), key=case)
         ctx.report(vs)
     return body
